@@ -179,6 +179,12 @@ func (e *c08Env) prepare(ci int, q string) bool {
 	if f == nil || f.Opcode != byte(primitive.OpCodeResult) {
 		return false
 	}
+	if frm, err := e.cs[ci].cl.Decode(f); err == nil {
+		if res, ok := frm.Body.Message.(*message.PreparedResult); ok && !bytes.Equal(res.PreparedQueryId, md5Of(q)) {
+			// a host that prepares under an id of its own: nothing the harness follows up
+			return false
+		}
+	}
 	e.cached[q] = true
 	e.ids[q] = md5Of(q)
 	return true
@@ -437,9 +443,16 @@ func genC08(ctx *Ctx) {
 					e.be.SetHostPrepare(h, nil)
 					delete(e.prepBad, h)
 				} else {
-					e.be.SetHostPrepare(h, &fb.Outcome{Kind: fb.ErrMsg, Msg: hv.Pick(r, []message.Message{
-						&message.ServerError{ErrorMessage: "fb: cannot prepare"}, &message.Overloaded{ErrorMessage: "fb: busy"},
-						&message.Invalid{ErrorMessage: "fb: unconfigured table t"}})})
+					if r.Intn(3) == 0 {
+						// the host prepares, under another id than the one it reports as unprepared: re-preparation
+						// has failed there as well, the request moves on (Model/Reprepare.v)
+						e.be.SetHostPrepare(h, &fb.Outcome{Kind: fb.OtherID})
+						ctx.Count("host-prepares-under-another-id")
+					} else {
+						e.be.SetHostPrepare(h, &fb.Outcome{Kind: fb.ErrMsg, Msg: hv.Pick(r, []message.Message{
+							&message.ServerError{ErrorMessage: "fb: cannot prepare"}, &message.Overloaded{ErrorMessage: "fb: busy"},
+							&message.Invalid{ErrorMessage: "fb: unconfigured table t"}})})
+					}
 					e.prepBad[h] = true
 				}
 			case x == 5:
